@@ -262,12 +262,12 @@ def oracle(script, impl):
                     if int(mm.group(1)) <= last:
                         break
                     last = int(mm.group(1))
-                elif not impl[i].startswith("oracle"):
+                elif not (impl[i].startswith("oracle") or impl[i].startswith("inv ")):
                     break
                 lines.append(impl[i])
                 i += 1
             for l in lines:
-                if l.startswith("oracle"):
+                if l.startswith("oracle") or l.startswith("inv "):
                     if "BAD" in l:
                         return l
                     continue
@@ -340,6 +340,8 @@ def stats_of(script, impl, dist):
             dist["bpp"][t[3]] = dist["bpp"].get(t[3], 0) + 1
         if t[0] == "cursor" and len(t) > 3:
             sz = "%sx%s" % (t[2], t[3])
+            if (int(t[2]), int(t[3])) not in SIZES:
+                sz = "other(1..20 x 1..20)"
             dist["cursor_size"][sz] = dist["cursor_size"].get(sz, 0) + 1
     painted = 0
     for l in impl:
@@ -352,7 +354,7 @@ def stats_of(script, impl, dist):
                 painted += 1
         elif l == "bad-op":
             dist["bad_ops"] += 1
-        elif l.startswith("oracle") and l.endswith("ok"):
+        elif l.startswith(("oracle", "inv ")) and l.endswith("ok"):
             dist["oracle_checks"] += 1
     dist["updates_with_cursor_painted"] += painted
     return painted
@@ -379,14 +381,14 @@ def run(ctx):
     else:
         for name, sc in load_corpus():
             scripts.append(("corpus:" + name, sc, True))
-        n = 500 if ctx.tier == "quick" else 6000
+        n = 400 if ctx.tier == "quick" else 15000
         for k in range(n):
             scripts.append(("gen", gen_script(ctx.rng), True))
-        for k in range(8 if ctx.tier == "quick" else 60):
+        for k in range(8 if ctx.tier == "quick" else 300):
             scripts.append(("gen-big", gen_script(ctx.rng, big=True), True))
         # failure in the middle of the stream (2nd/3rd write): the number of writes of an update is
         # not modelled, so these are judged by the direct oracles only
-        for k in range(20 if ctx.tier == "quick" else 200):
+        for k in range(20 if ctx.tier == "quick" else 600):
             scripts.append(("gen-midfail", gen_script(ctx.rng, big=True, midfail=True), False))
 
     def one(item):
@@ -413,7 +415,7 @@ def run(ctx):
                 if not ctx.driver_ok or not with_model:
                     break
                 rc2, m2, _ = ctx.run_lines(d, sc, args=args, timeout=300)
-                if rc2 == 0 and [l for l in m2 if not l.startswith("oracle")] == [l for l in impl if not l.startswith("oracle")]:
+                if rc2 == 0 and [l for l in m2 if not l.startswith(("oracle", "inv "))] == [l for l in impl if not l.startswith(("oracle", "inv "))]:
                     explained = fid
                     break
         return what, sc, impl, f, o, explained
@@ -430,6 +432,13 @@ def run(ctx):
         if o:
             recs.append({"kind": "oracle", "what": "C15 direct oracle (%s)" % what, "detail": o,
                          "script": sc.splitlines()[:400], "impl": impl[-30:]})
+        if not explained and o and not f:
+            # no model run to compare with (mid-stream failure scripts): the harness classifies the
+            # wrong pixel itself - precisely the pixel value the known-defective formula yields
+            if "cause=clip-last-col-row" in o:
+                explained = [FINDING_CLIP]
+            elif "cause=xcolour-unscaled" in o:
+                explained = [FINDING_COLOUR]
         for r in recs:
             if explained:
                 for fid in explained:
